@@ -25,6 +25,7 @@ func init() {
 		Controls: []Control{
 			{Name: "unregister-runs-a-callback-under-the-registry-lock", File: "routingtable/client_manager.go", Old: "func (c *ClientManager) _unregister(client RouteTableClient) bool {\n", New: "func (c *ClientManager) UnregisterWith(client RouteTableClient, withdraw func()) bool {\n\tc.mu.Lock()\n\tdefer c.mu.Unlock()\n\tif !c._unregister(client) {\n\t\treturn false\n\t}\n\twithdraw()\n\treturn true\n}\n\nfunc (c *ClientManager) _unregister(client RouteTableClient) bool {\n", Expect: "no-callback-under-lock"},
 			{Name: "disabled-neighbor-listed-but-not-started", File: "protocols/bgp/server/server.go", Old: "\tif !c.Passive {\n\t\tpeer.Start()\n", New: "\tif !c.Passive && c.AdminEnabled {\n\t\tpeer.Start()\n", Expect: "listed-fsm-is-started"},
+			{Name: "refactor-start-in-the-else-branch", Silent: true, File: "protocols/bgp/server/server.go", Old: "\tif !c.Passive {\n\t\tpeer.Start()\n\t}\n", New: "\tif c.Passive {\n\t\t_ = peer\n\t} else {\n\t\tpeer.Start()\n\t}\n"},
 			{Name: "connector-waits-for-a-reader-that-does-not-exist", File: "protocols/bgp/server/fsm.go", Old: "\t\t\t\tcase fsm.conErrCh <- err:\n\t\t\t\t\tcontinue\n\t\t\t\tcase <-time.NewTimer(time.Second * 30).C:\n\t\t\t\t\tcontinue\n", New: "\t\t\t\tcase fsm.conErrCh <- err:\n\t\t\t\t\tcontinue\n\t\t\t\tcase <-ctx.Done():\n\t\t\t\t\treturn\n", Expect: "send-has-a-taker"},
 			{Name: "receiver-parks-on-the-failure-channel", File: "protocols/bgp/server/fsm.go", Old: "\t\t\tselect {\n\t\t\tcase fsm.msgRecvFailCh <- err:\n\t\t\tdefault:\n\t\t\t}\n", New: "\t\t\tfsm.msgRecvFailCh <- err\n", Expect: "send-has-a-taker"},
 			{Name: "sender-loop-gives-up-on-a-write-error", File: "protocols/bgp/server/update_sender.go", Old: "\t\t\tu.sendUpdates(pathAttrs, updatesPrefixes, pathID)\n\t\t\tu.sendMu.Unlock()\n", New: "\t\t\tu.sendUpdates(pathAttrs, updatesPrefixes, pathID)\n\t\t\tu.sendMu.Unlock()\n\t\t\tif u.fsm.con == nil {\n\t\t\t\tu.wg.Done()\n\t\t\t\treturn\n\t\t\t}\n", Expect: "stop-request-taker-stays"},
